@@ -48,7 +48,7 @@ RULE = (
     "shm_offset/length, traceparent/tracestate, location, cancel, log keys, state tokens, ids) a variant ∈ {absent, "
     "valid, wrong, arbitrary/non-UTF-8 bytes; segment name ∈ nonexistent/foreign (no VGIS magic)/real/garbage; sizes "
     "and offsets non-numeric/negative/huge} × extra arbitrary binary keys (duplicates allowed) × columns ∈ {the "
-    "method's parameters, one value perturbed, arbitrary 0-4 columns over a 16-type palette with arbitrary/duplicate "
+    "method's parameters, one column's type perturbed, one value replaced within the declared type, arbitrary 0-4 columns over a 16-type palette with arbitrary/duplicate "
     "names} × rows 0..3. bytes: truncation at any offset, byte flips, insert/delete, trailing garbage of a valid "
     "request. Non-trivial = (wellframed) differs from a valid request in ≥1 metadata key or column and is still one "
     "complete single-batch stream, or (bytes) is a truncation/corruption inside the stream; distinct by SHA-1."
@@ -147,6 +147,7 @@ _cols = st.one_of(
     st.just({"kind": "params"}),
     st.builds(lambda i, ty, v: {"kind": "perturb", "i": i, "ty": ty, "v": v}, st.integers(0, 4),
               st.sampled_from(sorted(_TYPES)), st.integers(0, 5)),
+    st.builds(lambda i, v: {"kind": "badvalue", "i": i, "v": v}, st.integers(0, 4), st.integers(0, 5)),
     st.builds(lambda cs: {"kind": "free", "cols": cs}, st.lists(_col, max_size=4)),
 )
 _request = st.fixed_dictionaries(
@@ -281,10 +282,17 @@ def _array(ty: str, values: list[Any]) -> pa.Array:
 def _columns(req: dict[str, Any], rows: int) -> tuple[pa.Schema, list[pa.Array]]:
     spec = req["cols"]
     m = req["m"]
-    if spec["kind"] in ("params", "perturb"):
+    if spec["kind"] in ("params", "perturb", "badvalue"):
         params = _PARAMS.get(m, _PARAMS["probe"])
         fields, arrays = [], []
         for idx, (name, t, val) in enumerate(params):
+            if spec["kind"] == "badvalue" and idx == spec["i"] % len(params):
+                # declared type, but another value of that type (null, extreme, non-member enum name, ...)
+                ty = "dict_utf8" if pa.types.is_dictionary(t) else "utf8" if t == pa.utf8() else "int64"
+                vals = [_value(ty, spec["v"] + r) for r in range(rows)]
+                arrays.append(_array(ty, vals))
+                fields.append(pa.field(name, t, nullable=any(v is None for v in vals)))
+                continue
             if spec["kind"] == "perturb" and idx == spec["i"] % len(params):
                 ty = spec["ty"]
                 arrays.append(_array(ty, [_value(ty, spec["v"] + r) for r in range(rows)]))
@@ -357,6 +365,8 @@ def _classify(data: bytes) -> str:
         return "invalid"
     if src.tell() != len(data):
         return "trailing"
+    if not data.endswith(b"\xff\xff\xff\xff\x00\x00\x00\x00"):
+        return "no_eos"  # pyarrow accepts EOF in place of the end-of-stream marker; on a live connection it never comes
     if len(batches) != 1:
         return "batches=" + str(len(batches))
     if batches[0].num_rows > 3:
@@ -465,13 +475,16 @@ def _exchange(live: _Live, data: bytes, header_stream: bool, obs: list[Any]) -> 
 
 
 def _server_site(how: str, tb: str) -> str:
-    """'<ExceptionType>@<innermost vgi_rpc function>' of the exception that ended the serve loop."""
-    site = "?"
-    for line in tb.splitlines():
+    """'<ExceptionType>@<innermost vgi_rpc function>:<its source line>' of the exception that ended the serve loop."""
+    site, code = "?", ""
+    lines = tb.splitlines()
+    for i, line in enumerate(lines):
         line = line.strip()
         if line.startswith("File ") and "/vgi_rpc/" in line:
             site = line.rsplit(", in ", 1)[-1]
-    return how.split(":", 1)[0].replace("raised ", "") + "@" + site
+            code = lines[i + 1].strip() if i + 1 < len(lines) else ""
+    code = "".join(ch for ch in code if ch.isalnum() or ch in "._()")[:40]
+    return how.split(":", 1)[0].replace("raised ", "") + "@" + site + ":" + code
 
 
 def _perturbations(req: dict[str, Any]) -> list[str]:
@@ -498,7 +511,9 @@ def _judge_wellframed(
     obs: list[Any] = []
     res = live.conn.call(lambda: _exchange(live, data, header_stream, obs))
     problem: str | None = None
+    stalled = False
     if res.stall is not None:
+        stalled = True
         out.label(f"stall={res.stall}")
         problem = f"no complete reply: {res.brief()}; read so far {obs!r}"
     elif res.kind == "exc":
@@ -516,7 +531,7 @@ def _judge_wellframed(
     how = live.conn.server_exit_how()
     if how.startswith("raised"):
         key = "serve_loop_raised/" + _server_site(how, live.conn.server_exit.get("tb", ""))
-    elif any(e[0] == "exception" for e in obs) and any(e[0] == "eos" for e in obs):
+    elif not stalled and any(e[0] == "exception" for e in obs) and any(e[0] == "eos" for e in obs):
         first = next(e[1] for e in obs if e[0] == "exception")
         key = "connection_ended_after_error_reply/" + first.split(":", 1)[0].strip()[:40]
     else:
